@@ -11,7 +11,7 @@ pub fn def() -> PropDef {
     PropDef {
         info: PropInfo {
             id: "C19",
-            rule: "argument tuples from boundary-heavy u64 pools (0, 1, 15, 16, 16^k-1, 16^k, 2^52+-1, 2^53, perfect squares +-1, 2^63, u64::MAX, random): gather_bytes vs the shift/or formula; memfrob on buffers of 0-256 bytes inside a canary arena (exactly len bytes XOR 0x2a, neighbours untouched, twice = identity, returns 0); strcmp on NUL-terminated strings with common prefixes (0 iff equal, |a-b| of the first differing bytes, all-ones for a null pointer), on heap buffers and - in a forked child - on strings whose terminators lie 0-2000 bytes before the end of a page that is followed by a differently filled page or by an inaccessible one (a fault is a violation); memfrob likewise on buffers that end 0-2000 bytes before an inaccessible page; sqrti vs (x as f64).sqrt() truncated and vs the exact integer square root below 2^52, on boundary pools, on k^2 +- d for k of every bit length, and on values that are both within a few ulps of a square and one below / on / one above a rounding tie of the u64 -> f64 conversion; bpf_trace_printf with fd 1 redirected to a pipe (return value == number of bytes read from the pipe, text == the three hexadecimal numbers); rand(min,max) in [min,max] when min<max; none may panic. Non-trivial = tuple with a value >= 2^32 or a buffer of >= 1 byte; distinct by hash of (helper, arguments).",
+            rule: "argument tuples from boundary-heavy u64 pools (the arguments a helper does not use get small numbers, boundary values and hashes as well) (0, 1, 15, 16, 16^k-1, 16^k, 2^52+-1, 2^53, perfect squares +-1, 2^63, u64::MAX, random): gather_bytes vs the shift/or formula; memfrob on buffers of 0-256 bytes inside a canary arena (exactly len bytes XOR 0x2a, neighbours untouched, twice = identity, returns 0); strcmp on NUL-terminated strings with common prefixes (0 iff equal, |a-b| of the first differing bytes, all-ones for a null pointer), on heap buffers and - in a forked child - on strings whose terminators lie 0-2000 bytes before the end of a page that is followed by a differently filled page or by an inaccessible one (a fault is a violation); memfrob likewise on buffers that end 0-2000 bytes before an inaccessible page; sqrti vs (x as f64).sqrt() truncated and vs the exact integer square root below 2^52, on boundary pools, on k^2 +- d for k of every bit length, and on values that are both within a few ulps of a square and one below / on / one above a rounding tie of the u64 -> f64 conversion; bpf_trace_printf with fd 1 redirected to a pipe (return value == number of bytes read from the pipe, text == the three hexadecimal numbers); rand(min,max) in [min,max] when min<max; none may panic. Non-trivial = tuple with a value >= 2^32 or a buffer of >= 1 byte; distinct by hash of (helper, arguments).",
             assumptions: &["println! writes through file descriptor 1 of the process", "bpf_ktime_getns is not part of the property"],
         },
         run,
@@ -167,6 +167,19 @@ fn capture_stdout(f: impl FnOnce() -> u64 + std::panic::UnwindSafe) -> (Result<u
     }
 }
 
+/// Values for the arguments a helper does not use ("for all u64 argument tuples"): small numbers,
+/// boundary values and a hash, chosen by the case's own content.
+fn unused_args(seed: u64) -> [u64; 4] {
+    let pool = [0u64, 1, 2, 3, 4, 5, 7, 8, 16, 64, 255, 4096, u64::MAX, 1 << 63, 0x2a];
+    let mut out = [0u64; 4];
+    let mut h = seed ^ 0x9e37_79b9_7f4a_7c15;
+    for o in out.iter_mut() {
+        h = splitmix(h);
+        *o = if h & 3 == 0 { splitmix(h) } else { pool[(h >> 8) as usize % pool.len()] };
+    }
+    out
+}
+
 pub fn check(c: &HCase) -> Verdict {
     match c {
         HCase::Gather(a) => {
@@ -185,7 +198,8 @@ pub fn check(c: &HCase) -> Verdict {
             let before = arena.clone();
             let ptr = arena.as_mut_ptr() as u64 + (CANARY + start) as u64;
             let l = *len as u64;
-            let r = match catch(move || helpers::memfrob(ptr, l, 3, 4, 5)) {
+            let u = unused_args(fnv(buf) ^ *start as u64);
+            let r = match catch(move || helpers::memfrob(ptr, l, u[0], u[1], u[2])) {
                 Ok(r) => r,
                 Err(m) => return Verdict::fail(format!("memfrob:{}", panic_signature(&m)), format!("memfrob panicked: {m}")),
             };
@@ -214,7 +228,8 @@ pub fn check(c: &HCase) -> Verdict {
             sb.extend_from_slice(&[0x55; 8]);
             let pa = if *null_a { 0 } else { sa.as_ptr() as u64 };
             let pb = if *null_b { 0 } else { sb.as_ptr() as u64 };
-            let got = match catch(move || helpers::strcmp(pa, pb, 0, 0, 0)) {
+            let u = unused_args(fnv(a) ^ fnv(b).rotate_left(7));
+            let got = match catch(move || helpers::strcmp(pa, pb, u[0], u[1], u[2])) {
                 Ok(g) => g,
                 Err(m) => return Verdict::fail(format!("strcmp:{}", panic_signature(&m)), format!("strcmp({a:?}, {b:?}) panicked: {m}")),
             };
@@ -262,7 +277,8 @@ pub fn check(c: &HCase) -> Verdict {
                     }
                     i += 1;
                 };
-                let r = super::fork_call(|| (1, helpers::strcmp(pa, pb, 0, 0, 0)));
+                let u = unused_args(fnv(a) ^ fnv(b).rotate_left(9) ^ *ad as u64);
+                let r = super::fork_call(|| (1, helpers::strcmp(pa, pb, u[0], u[1], u[2])));
                 let desc = || format!("strcmp({a:?}, {b:?}) with the terminators {} / {} bytes before the end of page {} / {} of two 2-page buffers followed by inaccessible pages (addresses {pa:#x}, {pb:#x})", ad, bd, ak % 2, bk % 2);
                 match r {
                     Err(sig) => Verdict::fail(format!("strcmp:signal-{sig}"), format!("{} died with signal {sig} (0 = no result): it read outside the strings", desc())),
@@ -293,7 +309,8 @@ pub fn check(c: &HCase) -> Verdict {
                 let before = std::slice::from_raw_parts(base, PAGE).to_vec();
                 let (ptr, len) = (base.add(start) as u64, buf.len() as u64);
                 // the arena is MAP_SHARED: the child's writes are visible here
-                let r = super::fork_call(|| (1, helpers::memfrob(ptr, len, 3, 4, 5)));
+                let u = unused_args(fnv(buf) ^ *d as u64);
+                let r = super::fork_call(|| (1, helpers::memfrob(ptr, len, u[0], u[1], u[2])));
                 let after = std::slice::from_raw_parts(base, PAGE);
                 let desc = || format!("memfrob on a {}-byte buffer whose last byte lies {} bytes before an inaccessible page", buf.len(), PAGE - end);
                 match r {
@@ -314,7 +331,8 @@ pub fn check(c: &HCase) -> Verdict {
         }
         HCase::Sqrti(x) => {
             let x = *x;
-            let got = match catch(move || helpers::sqrti(x, 1, 2, 3, 4)) {
+            let u = unused_args(x);
+            let got = match catch(move || helpers::sqrti(x, u[0], u[1], u[2], u[3])) {
                 Ok(g) => g,
                 Err(m) => return Verdict::fail(format!("sqrti:{}", panic_signature(&m)), format!("sqrti({x}) panicked: {m}")),
             };
@@ -355,7 +373,8 @@ pub fn check(c: &HCase) -> Verdict {
                 _ => {}
             }
             for _ in 0..4 {
-                let got = match catch(move || helpers::rand(min, max, 0, 0, 0)) {
+                let u = unused_args(min ^ max.rotate_left(17));
+                let got = match catch(move || helpers::rand(min, max, u[0], u[1], u[2])) {
                     Ok(g) => g,
                     Err(m) => return Verdict::fail(format!("rand:{}", panic_signature(&m)), format!("rand({min}, {max}) panicked: {m}")),
                 };
